@@ -230,6 +230,8 @@ package websocket
 //@ ensures[C03.key] imp(err == nil && (r0 == 0 || r0 == 1 || r0 == 2) && c.isServer, \
 //@     c.readMaskPos == 0 && forall(k, 0, 4, c.readMaskKey[k] == s[c.br.g_rd - 4 + k]))
 //@ ensures[C03.nokey] imp(err == nil && !c.isServer, c.readMaskPos == old(c.readMaskPos))
+//@ ensures[C06.sum] imp(err == nil && (r0 == 1 || r0 == 2), c.readLength == c.readRemaining && c.g_mlen == c.readRemaining) && \
+//@     imp(err == nil && r0 == 0, c.readLength == old(c.readLength) + c.readRemaining && c.g_mlen == old(c.g_mlen) + c.readRemaining)
 //@ ensures[C06.exact] imp(c.br.g_rd >= h + rfc_hdrLen(s, h) && dataOK(s, h, c, inMsg) && \
 //@     newMlen(s, h, mlen0) <= 9223372036854775807 && (c.readLimit <= 0 || newMlen(s, h, mlen0) <= c.readLimit), err == nil)
 //@ ensures[C06.refuse] imp(c.br.g_rd >= h + rfc_hdrLen(s, h) && dataOK(s, h, c, inMsg) && c.readLimit > 0 && \
@@ -263,3 +265,70 @@ package websocket
 //@ assert at call:handleClose#1[C08.closeargs]: imp(rfc_payLen(s, h) == 0, arg1 == 1005 && len(arg2) == 0) && \
 //@     imp(rfc_payLen(s, h) >= 2, arg1 == b2i(unmaskedAt(s, c.isServer, h + rfc_hdrLen(s, h), 0))*256 + b2i(unmaskedAt(s, c.isServer, h + rfc_hdrLen(s, h), 1)) && \
 //@         len(arg2) == rfc_payLen(s, h) - 2 && forall(i, 0, len(arg2), arg2[i] == unmaskedAt(s, c.isServer, h + rfc_hdrLen(s, h), i + 2)))
+
+// messageReader.Read and NextReader.
+//   g_rpos / g_rrem: mask position and bytes remaining in the frame at the
+//   moment Read handed the caller's buffer to the transport.
+//@ ghostfield Conn.g_rpos int
+//@ ghostfield Conn.g_rrem int
+
+//@ pred RState(c) := imp(c.readErr == nil, RInv(c) && c.g_mlen >= 0 && c.readLength >= 0 && c.readLength <= c.g_mlen)
+//@ modset ReadApiMods(c) := ReaderMods(c), c.readErr, c.messageReader, c.reader, c.readErrCount, c.g_rpos, c.g_rrem
+
+//@ func field:Conn.newDecompressionReader
+//@ params c r
+//@ results result
+//@ trusted
+//@ pure
+//@ ensures result != nil
+
+//@ func (io.ReadCloser).Close
+//@ params rc
+//@ results err
+//@ trusted
+//@ pure
+
+//@ func (*messageReader).Read
+//@ tags C03 C05 C07
+//@ option weakb2i
+//@ results n err
+//@ let c := r.c
+//@ let s := r.c.br.g_in
+//@ requires r.c != nil && RState(r.c) && imp(r.c.readErr == nil, region(b) != r.c.br.g_buf) && region(b) >= 0
+//@ modifies ReadApiMods(r.c), mem(b)
+//@ ensures[state] RState(c)
+//@ ensures[range] 0 <= n && n <= len(b)
+//@ ensures[stale] imp(old(c.messageReader) != r, n == 0 && err == io.EOF && c.br.g_rd == old(c.br.g_rd))
+//@ ensures[C05.sticky] imp(old(c.readErr) != nil && old(c.messageReader) == r, n == 0 && err != nil && c.br.g_rd == old(c.br.g_rd))
+//@ ensures[C05.eof] imp(err == io.EOF && old(c.messageReader) == r, c.readRemaining == 0 && c.readFinal)
+//@ ensures[C03.bytes] forall(i, 0, n, b[i] == ite(c.isServer, s[c.br.g_rd - n + i] ^ c.readMaskKey[(c.g_rpos + i)&3], s[c.br.g_rd - n + i]))
+//@ ensures[C03.cursor] imp(n > 0, n <= c.g_rrem && c.readRemaining == c.g_rrem - n && imp(c.isServer, c.readMaskPos == (c.g_rpos + n)&3))
+//@ ensures[C03.contig] imp(old(c.readRemaining) > 0 && old(c.readErr) == nil && old(c.messageReader) == r, \
+//@     c.br.g_rd == old(c.br.g_rd) + n && c.g_rpos == old(c.readMaskPos) && c.g_rrem == old(c.readRemaining) && c.g_hcalls == old(c.g_hcalls))
+//@ ensures[C03.nonempty] imp(old(c.readRemaining) > 0 && old(c.readErr) == nil && old(c.messageReader) == r && len(b) > 0, n > 0 || err != nil)
+//@ ensures[errsticky] imp(err != nil && err != io.EOF, c.readErr != nil)
+//@ loop 1 modifies ReadApiMods(r.c), mem(b)
+//@ loop 1 invariant RState(c) && c.messageReader == r
+//@ loop 1 invariant imp(old(c.readErr) != nil, c.readErr == old(c.readErr) && c.br.g_rd == old(c.br.g_rd))
+//@ loop 1 invariant imp(old(c.readRemaining) > 0 && old(c.readErr) == nil, c.readErr == nil && c.readRemaining == old(c.readRemaining) && \
+//@     c.br.g_rd == old(c.br.g_rd) && c.readMaskPos == old(c.readMaskPos) && c.g_hcalls == old(c.g_hcalls))
+//@ loop 1 increases c.br.g_rd unless c.readErr != nil
+//@ ghost before call:Read#1: c.g_rpos := c.readMaskPos
+//@ ghost before call:Read#1: c.g_rrem := c.readRemaining
+
+//@ func (*Conn).NextReader
+//@ tags C03 C04 C05 C06 C07
+//@ option weakb2i
+//@ panics "repeated read on failed websocket connection"
+//@ requires RState(c)
+//@ modifies ReadApiMods(c)
+//@ ensures[state] RState(c)
+//@ ensures[C05.sticky] imp(old(c.readErr) != nil, err == old(c.readErr) && c.br.g_rd == old(c.br.g_rd) && r == nil && c.g_hcalls == old(c.g_hcalls))
+//@ ensures[C04.sticky] imp(err != nil, c.readErr == err && r == nil && messageType == 0 - 1)
+//@ ensures[C03.next] imp(err == nil, (messageType == 1 || messageType == 2) && c.readErr == nil && c.messageReader != nil && r != nil && \
+//@     r == c.reader && c.readLength == c.readRemaining && c.g_mlen == c.readRemaining)
+//@ ensures[C03.plain] imp(err == nil && !c.readDecompress, typeIs(r, "*messageReader") && asType(r, "*messageReader") == c.messageReader && c.messageReader.c == c)
+//@ loop 1 modifies ReadApiMods(c)
+//@ loop 1 invariant RState(c)
+//@ loop 1 invariant imp(old(c.readErr) != nil, c.readErr == old(c.readErr) && c.br.g_rd == old(c.br.g_rd) && c.g_hcalls == old(c.g_hcalls))
+//@ loop 1 increases c.br.g_rd unless c.readErr != nil
